@@ -39,8 +39,18 @@ type VMCase struct {
 	Time       int64
 	ChainID    string
 	PreStorage [][2]binary.Word256
+	CalleeBal  uint64      // balance of the callee before the call
+	Extra      []VMAccount // further accounts of the pre-state (contracts the program may call)
 	UsesExt    bool
 	Heavy      bool // may legitimately exceed the watchdog (EXP with huge operands, giant allocation)
+}
+
+// VMAccount is an account of the pre- or post-state.
+type VMAccount struct {
+	Addr    crypto.Address
+	Code    []byte
+	Balance uint64
+	Storage [][2]binary.Word256
 }
 
 type VMLog struct {
@@ -55,6 +65,7 @@ type VMResult struct {
 	GasLeft string
 	Storage [][2]string
 	Logs    []VMLog
+	Post    string // JSON array of every account after the call
 	Detail  string
 }
 
@@ -159,6 +170,44 @@ func readStorage(st vmState, a crypto.Address) [][2]string {
 	return out
 }
 
+// dumpWorld renders every account of the state, sorted by address.
+func dumpWorld(st vmState) string {
+	var addrs []crypto.Address
+	for a := range st.MemoryState.Accounts {
+		addrs = append(addrs, a) // includes Burrow's global-permissions account at the zero address
+	}
+	sort.Slice(addrs, func(i, j int) bool { return addrs[i].String() < addrs[j].String() })
+	var b strings.Builder
+	b.WriteByte('[')
+	for i, a := range addrs {
+		if i > 0 {
+			b.WriteByte(',')
+		}
+		acc := st.MemoryState.Accounts[a]
+		b.WriteString(`{"addr":"` + hex.EncodeToString(a.Bytes()) + `","code":"` + hex.EncodeToString(acc.EVMCode) +
+			`","balance":` + strconv.FormatUint(acc.Balance, 10) + `,"storage":`)
+		jsonStorage(&b, readStorage(st, a))
+		b.WriteByte('}')
+	}
+	b.WriteByte(']')
+	return b.String()
+}
+
+func preAccountJSON(b *strings.Builder, addr crypto.Address, code []byte, bal uint64, storage [][2]binary.Word256) {
+	b.WriteString(`{"addr":"` + hex.EncodeToString(addr.Bytes()) + `","code":"` + hex.EncodeToString(code) +
+		`","balance":` + strconv.FormatUint(bal, 10) + `,"storage":`)
+	var kv [][2]string
+	for _, e := range storage {
+		if e[1] == binary.Zero256 {
+			continue
+		}
+		kv = append(kv, [2]string{hex.EncodeToString(e[0].Bytes()), hex.EncodeToString(e[1].Bytes())})
+	}
+	sort.Slice(kv, func(i, j int) bool { return kv[i][0] < kv[j][0] })
+	jsonStorage(b, kv)
+	b.WriteByte('}')
+}
+
 // RunVMCase executes the case in this goroutine.  A Go panic inside the VM is an
 // outcome; fatal runtime errors and hangs are handled by the supervisor in cmd/vmrun.
 func RunVMCase(c *VMCase) (res VMResult) {
@@ -172,8 +221,24 @@ func RunVMCase(c *VMCase) (res VMResult) {
 	must(engine.UpdateAccount(st, VMCaller, func(a *acm.Account) error { return a.AddToBalance(c.CallerBal) }))
 	must(engine.CreateAccount(st, VMCallee))
 	must(engine.InitEVMCode(st, VMCallee, c.Code))
+	if c.CalleeBal > 0 {
+		must(engine.UpdateAccount(st, VMCallee, func(a *acm.Account) error { return a.AddToBalance(c.CalleeBal) }))
+	}
 	for _, kv := range c.PreStorage {
 		must(st.SetStorage(VMCallee, kv[0], kv[1].Bytes()))
+	}
+	for _, x := range c.Extra {
+		must(engine.CreateAccount(st, x.Addr))
+		if len(x.Code) > 0 {
+			must(engine.InitEVMCode(st, x.Addr, x.Code))
+		}
+		if x.Balance > 0 {
+			b := x.Balance
+			must(engine.UpdateAccount(st, x.Addr, func(a *acm.Account) error { return a.AddToBalance(b) }))
+		}
+		for _, kv := range x.Storage {
+			must(st.SetStorage(x.Addr, kv[0], kv[1].Bytes()))
+		}
 	}
 	sink := &vmSink{}
 	gas := big.NewInt(c.Gas)
@@ -190,6 +255,7 @@ func RunVMCase(c *VMCase) (res VMResult) {
 		res.GasLeft = gas.String()
 		res.Storage = readStorage(st, VMCallee)
 		res.Logs = sink.logs
+		res.Post = dumpWorld(st)
 	}
 	defer func() {
 		if r := recover(); r != nil {
@@ -255,6 +321,17 @@ func VMLine(c *VMCase, r *VMResult) string {
 	}
 	sort.Slice(pre, func(i, j int) bool { return pre[i][0] < pre[j][0] })
 	jsonStorage(&b, pre)
+	b.WriteString(`,"pre":[`)
+	preAccountJSON(&b, acm.GlobalPermissionsAddress, nil, 0, nil) // exists in every Burrow MemoryState
+	b.WriteByte(',')
+	preAccountJSON(&b, VMCaller, nil, c.CallerBal, nil)
+	b.WriteByte(',')
+	preAccountJSON(&b, VMCallee, c.Code, c.CalleeBal, c.PreStorage)
+	for _, x := range c.Extra {
+		b.WriteByte(',')
+		preAccountJSON(&b, x.Addr, x.Code, x.Balance, x.Storage)
+	}
+	b.WriteString(`]`)
 	b.WriteString(`,"res":{"outcome":"` + r.Outcome + `","ret":"` + hex.EncodeToString(r.Ret) + `","gasLeft":` + r.GasLeft + `,"storage":`)
 	jsonStorage(&b, r.Storage)
 	b.WriteString(`,"logs":[`)
@@ -272,6 +349,9 @@ func VMLine(c *VMCase, r *VMResult) string {
 		b.WriteString(`],"data":"` + l.Data + `"}`)
 	}
 	b.WriteString(`]`)
+	if r.Post != "" {
+		b.WriteString(`,"post":` + r.Post)
+	}
 	if r.Detail != "" {
 		b.WriteString(`,"detail":` + strconv.Quote(r.Detail))
 	}
